@@ -80,7 +80,23 @@ def pCmd : Nat → List Str → Option (Cmd × List Str)
     else if k = "X" then match ts with | a :: r => (optInt a).map (fun n => (.exit n, r)) | _ => none
     else if k = "O" then
       match ts with
-      | o :: v :: r => if o = ['e'] then some (.setE (v = ['1']), r) else none
+      | o :: v :: r =>
+        if o = ['e'] then some (.setOpt .errexit (v = ['1']), r)
+        else if o = ['p'] then some (.setOpt .pipefail (v = ['1']), r)
+        else if o = ['i'] then some (.setOpt .inheritErrexit (v = ['1']), r)
+        else none
+      | _ => none
+    else if k = "Cs" then (pCmd fuel ts).map (fun (c, r) => (.cmdsubst c, r))
+    else if k = "Ev" then (pCmd fuel ts).map (fun (c, r) => (.evalC c, r))
+    else if k = "Pi" then
+      match ts with
+      | a :: r =>
+        match parseNat? a with
+        | some n =>
+          match takeNats n r with
+          | some (cs, r') => (pCmd fuel r').map (fun (c, r'') => (.pipe cs c, r''))
+          | none => none
+        | none => none
       | _ => none
     else none
   | _ + 1, [] => none
